@@ -434,7 +434,17 @@ func runC16(c *Ctx) Result {
 						hs = append(hs, fmt.Sprintf("c%d[%d..%d] %s = %s", ci, inv[ci][cj], ret[ci][cj], oo, clip(got[ci][cj], 80)))
 					}
 				}
-				if strings.HasPrefix(got[i][j], "ERR(Syntax error") && seqAnswers[got[i][j]] {
+				genuine := false
+				if strings.HasPrefix(got[i][j], "ERR(Syntax error") {
+					// (composite answers such as Interface+Raw carry the error as a part)
+					for a := range seqAnswers {
+						if strings.Contains(a, got[i][j]) {
+							genuine = true
+							break
+						}
+					}
+				}
+				if genuine {
 					// the syntax error of a malformed child, genuine (the sequential implementation
 					// reports the very same error through other reads), but surfaced through a read
 					// that sequentially never surfaces it: the reader picked the child while it was
